@@ -50,6 +50,11 @@ pub struct PartySpec {
     /// not a C06 matter — but if it returns a circuit, it must be the same circuit.
     #[serde(default)]
     pub alloc_limit: Option<usize>,
+    /// environment variables that read differently in this (process) party: set to "1" if really
+    /// unset, unset if really set. The names are discovered at run time: whatever a party asked
+    /// getenv for.
+    #[serde(default)]
+    pub env_flip: Vec<String>,
 }
 
 #[derive(Clone, Debug, Serialize, Deserialize)]
@@ -122,6 +127,16 @@ pub fn run_world(w: &World) -> WorldResult {
     res
 }
 
+/// environment variables any party of the current case asked for (thread parties via the seam's
+/// own set, process parties via their ENVQ line)
+static ENV_DISCOVERED: std::sync::Mutex<BTreeSet<String>> = std::sync::Mutex::new(BTreeSet::new());
+
+pub fn take_discovered_env() -> Vec<String> {
+    let mut d = std::mem::take(&mut *ENV_DISCOVERED.lock().unwrap_or_else(|e| e.into_inner()));
+    d.extend(crate::seams::take_env_queries());
+    d.into_iter().collect()
+}
+
 /// A party as a real, fresh OS process: re-executes this binary (`c06-child`), whose main thread
 /// takes the keys from the seam and runs the steps.
 fn run_process_party(prog: &ProgSpec, party: &PartySpec) -> Result<Vec<(Outcome, Vec<ProbeRec>)>, String> {
@@ -147,7 +162,13 @@ fn run_process_party(prog: &ProgSpec, party: &PartySpec) -> Result<Vec<(Outcome,
     if !out.status.success() {
         return Err(format!("process party died{}: {}", if pressure { " under memory pressure" } else { "" }, out.status));
     }
-    let line = out.stdout.split(|b| *b == b'\n').next().unwrap_or(b"[]");
+    let mut lines = out.stdout.split(|b| *b == b'\n');
+    let line = lines.next().unwrap_or(b"[]");
+    if let Some(q) = lines.next().and_then(|l| l.strip_prefix(b"ENVQ ")) {
+        if let Ok(names) = serde_json::from_slice::<Vec<String>>(q) {
+            ENV_DISCOVERED.lock().unwrap_or_else(|e| e.into_inner()).extend(names);
+        }
+    }
     serde_json::from_slice::<Vec<(Outcome, Vec<ProbeRec>)>>(line).map_err(|e| format!("process party output: {e}"))
 }
 
@@ -321,7 +342,7 @@ fn draw_party(p: &mut Prng, fns: &[String], nconsts: usize, light: bool) -> Part
             Step { fn_name: f, opts: o, mode, perm, cap, warm_src: None }
         })
         .collect();
-    PartySpec { keys, steps, process: false, alloc_limit: None }
+    PartySpec { keys, steps, process: false, alloc_limit: None, env_flip: vec![] }
 }
 
 const KEYWORDS: &[&str] = &[
@@ -447,8 +468,8 @@ pub fn make_world(plan: &Plan, seed: u64, idx: u64) -> (World, String, Prng) {
             warm.push(warm_step(gen::program(&mut p)));
         }
         warm.push(target.clone());
-        parties.push(PartySpec { keys, steps: vec![target.clone()], process: true, alloc_limit: None });
-        parties.push(PartySpec { keys, steps: warm, process: true, alloc_limit: None });
+        parties.push(PartySpec { keys, steps: vec![target.clone()], process: true, alloc_limit: None, env_flip: vec![] });
+        parties.push(PartySpec { keys, steps: warm, process: true, alloc_limit: None, env_flip: vec![] });
         // further processes with the same keys, under memory pressure: single allocations above
         // the limit fail. For large programs the limits 1..16 MiB are all tried: between the point
         // where a hash table can no longer grow and the point where the gate vector can no longer
@@ -456,11 +477,11 @@ pub fn make_world(plan: &Plan, seed: u64, idx: u64) -> (World, String, Prng) {
         // the process survives with a table that stopped growing
         if family == "big" {
             for lim in [1usize << 20, 2 << 20, 4 << 20, 8 << 20, 16 << 20] {
-                parties.push(PartySpec { keys, steps: vec![target.clone()], process: true, alloc_limit: Some(lim) });
+                parties.push(PartySpec { keys, steps: vec![target.clone()], process: true, alloc_limit: Some(lim), env_flip: vec![] });
             }
         } else if p.chance(1, 6) {
             let lim = *p.pick(&[1usize << 20, 2 << 20, 4 << 20, 1 << 16, 1 << 18, 1 << 14]);
-            parties.push(PartySpec { keys, steps: vec![target], process: true, alloc_limit: Some(lim) });
+            parties.push(PartySpec { keys, steps: vec![target], process: true, alloc_limit: Some(lim), env_flip: vec![] });
         }
     }
     (World { program: ProgSpec { name, src, consts }, parties }, family.to_string(), p)
@@ -477,6 +498,7 @@ fn probe_parties(p: &mut Prng, n: usize, fn_name: &str, opts: Opts) -> Vec<Party
             steps: vec![simple_step(fn_name, opts)],
             process: false,
             alloc_limit: None,
+            env_flip: vec![],
         })
         .collect()
 }
@@ -596,9 +618,30 @@ pub fn replay_json(w: &World, f: &Finding, seed: u64, idx: Option<u64>) -> serde
 
 pub fn run_case(plan: &Plan, seed: u64, idx: u64) -> CaseResult {
     crate::seams::reset_world();
-    let (w, family, mut p) = make_world(plan, seed, idx);
-    let r = run_world(&w);
+    let (mut w, family, mut p) = make_world(plan, seed, idx);
+    let _ = take_discovered_env();
+    let mut r = run_world(&w);
+    // environment discovery: if any party asked for an environment variable, add a process party
+    // (same keys as the cold process party) in whose environment those variables read differently
+    let asked = take_discovered_env();
+    let mut env_parties = 0u64;
+    if !asked.is_empty() {
+        if let Some(cold) = w.parties.iter().find(|q| q.process && q.alloc_limit.is_none() && q.steps.len() == 1).cloned() {
+            let mut flips: Vec<Vec<String>> = vec![asked.clone()];
+            if asked.len() > 1 {
+                flips.extend(asked.iter().map(|n| vec![n.clone()]));
+            }
+            for f in flips.into_iter().take(6) {
+                let twin = PartySpec { env_flip: f, ..cold.clone() };
+                r.push(run_process_party(&w.program, &twin));
+                w.parties.push(twin);
+                env_parties += 1;
+            }
+        }
+    }
     let (findings, mut counters) = judge(&w, &r);
+    *counters.entry("environment_variables_asked_for".into()).or_insert(0) += asked.len() as u64;
+    *counters.entry("environment_flipped_parties".into()).or_insert(0) += env_parties;
     let mut d = Digest::new();
     d.u64(idx);
     d.str(&w.program.src);
@@ -754,10 +797,13 @@ pub fn fidelity_child() -> i32 {
     // a process party has its own idea of the time too (a warm party: later than its cold twin)
     let warmed = party.steps.iter().any(|s| s.mode == Mode::Warm) as u64;
     crate::seams::enter_party_clock(party_time_ns(&party.keys) + warmed * 3_600_000_000_000, party_clock_step_ns(&party.keys));
+    crate::seams::enter_party_env(party.env_flip.clone());
     let outs = run_steps(&w.program, &party.steps);
+    crate::seams::leave_party_env();
     crate::seams::leave_party_clock();
     crate::ALLOC_LIMIT.store(0, std::sync::atomic::Ordering::SeqCst);
     println!("{}", serde_json::to_string(&outs).unwrap());
+    println!("ENVQ {}", serde_json::to_string(&crate::seams::take_env_queries()).unwrap());
     0
 }
 
